@@ -51,7 +51,7 @@ UNIT_TRUSTED["packet_validate"] = [
 ]
 
 UNIT_TRUSTED["packet_parse"] = [
-    "prelude p_packet_parse: io::Cursor modelled as (buffer, position) with assumed contracts for new/position/set_position/get_ref; byteorder reads as R11 helpers (`requires pos + k <= len` turns every `.unwrap()` of the real code into an obligation); R11b shims for Capability::decode / Attribute::decode (they take `&mut dyn io::Read`): assumed to leave the buffer alone, never move the cursor backwards or past the end, return the attribute with the code / flags given, and a byte-string body for MP_REACH / MP_UNREACH; and (for the attribute-walk contract) Attribute::decode's outcome is ASSUMED to be a function attr_decodes(code, flags, the `len` value octets, two_byte_as) and an accepted value to be consumed whole (cursor advanced by exactly `len`: cross-checked per attribute type by the bounded Kani decode harnesses, clause C05.decode.accepted_value_is_consumed_whole)",
+    "prelude p_packet_parse: io::Cursor modelled as (buffer, position) with assumed contracts for new/position/set_position/get_ref; byteorder reads as R11 helpers (`requires pos + k <= len` turns every `.unwrap()` of the real code into an obligation); R11b shims for Capability::decode / Attribute::decode (they take `&mut dyn io::Read`): assumed to leave the buffer alone, never move the cursor backwards or past the end, return the attribute with the code / flags given, and a byte-string body for MP_REACH / MP_UNREACH; and (for the attribute-walk contract) Attribute::decode's outcome is ASSUMED to be a function attr_decodes(code, flags, the `len` value octets, two_byte_as) and an accepted value to be consumed whole (cursor advanced by exactly `len`: cross-checked per attribute type by the bounded Kani decode harnesses, clause C05.decode.accepted_value_is_consumed_whole), MP_REACH / MP_UNREACH stored as the value received; Family(v) as an uninterpreted family_of(v)",
     "trusted (external_body, contracts assumed): PeerCodec::decode_nlri_list (total; its outcome is a function nlri_list_ok of its four arguments — it is an associated function without state), PeerCodec::reconcile_as4 (total, keeps stored attributes well-flagged), Nexthop::from_bytes, Notification::from_notification, Attribute::{binary,new_opaque}, HoldTime::new, Ipv4Addr::{from(u32),is_unspecified,is_broadcast,is_multicast} as functions of the 32 bits, <[T]>::to_vec, Option::{is_none_or,filter}, bool::then_some",
     "precondition buf.len() <= 65535: established by PeerCodec::try_parse (bounded Kani harness bgp_try_parse_framing), the only caller",
     "NOT covered: the per-family NLRI decoders behind decode_nlri_list and the attribute / capability body decoders (leaf byte-level code)",
@@ -72,12 +72,19 @@ UNIT_TRUSTED["table_policy"] = [
     "attrs_wf — precondition of Condition::evalute, Statement::apply, Policy::apply, PolicyAssignment::apply and preserved by them: an attribute with type code 2 holds a byte string (true of what Attribute::decode and the API conversion build; as_path_* and AsPathIter::new unwrap it)",
     "Condition::evalute: ip_network_table_deps_treebitmap::IpLookupTable modelled as a finite map (network address, length) -> value (lt4_view / lt6_view, uninterpreted); R11 helpers vx_lt4/6_matches_any (assumed: `matches(ip)` yields exactly the stored prefixes containing ip) and vx_lt4/6_longest_match (assumed: the longest of them; only used if the code calls it); 'contains' is defined on address octets (lt_masked_octet); packet::IpNet::contains uninterpreted here (decided by the C16 Kani harnesses); communities_from_attr / ext_ / large_ and the text forms of community values (`format!`) uninterpreted (vx_comm_strs / vx_ecomm_strs / vx_lcomm_strs outlined verbatim); the RPKI, route-type, afi-safi-in and next-hop arms are outlined verbatim (R11) as uninterpreted functions of what they read (Source identity is part of a Source's abstract value) — they are outside the property's text; derive(PartialEq) on MatchOption structural; #[verifier::loop_isolation(false)]",
     "Statement::apply: Arc::make_mut as a `&mut` into the vector the Arc owns afterwards (vx_arc_make_mut; copy-on-write invisible, Arc = value); Vec::retain / into_iter().filter().collect() keep exactly the elements satisfying the (verified) predicate, in order; Vec::contains / clone / extend_from_slice on u32, [u8; 8], (u32, u32, u32) structural (vx_contains / vx_vec_clone / vx_vec_extend); Option::copied, i64::saturating_add, i64::clamp as their std definitions; Attribute::new_with_value returns a value attribute with that code for codes 1, 4, 5 (canonical-flags table: Kani harness c05_canonical_flags_table); communities_to_attr / ext_ / large_ and Attribute::as_path_prepend / as_path_prepend_confed / empty_as_path uninterpreted with their type codes (the byte-level prepend functions are verified in unit packet_aspath); IpAddr and bgp::Nexthop mirrored transparently; rlimit(200) (about 20 s)",
-    "PolicyTable: FnvHashMap::values() over the statements / policies outlined as vectors in an unspecified order (vx_stmt_values / vx_policy_values, assumed: exactly the stored values); String / str comparisons through references outlined (vx_string_eq, vx_string_eq_str, vx_str_eq: equality of the character sequences); Arc<str>::as_ref, Arc::clone = same value; add_defined_set and condition_kind_matches trusted with no contract; the tails of delete_statement / delete_policy (editing a statement / policy that is not in use) carry no functional contract, only panic-freedom and the in-use guard",
-    "NOT under contract: the regular-expression members of an as-path set (known finding F-C14-4), prefix / neighbour sets with the ALL option (rejected by add_statement), the byte layout of community attributes, and the in-use guards of delete_defined_set, add_defined_set (merge), add_statement / add_policy (existing object) and the daemon-side per-peer checks",
+    "PolicyTable: FnvHashMap::values() over the statements / policies outlined as vectors in an unspecified order (vx_stmt_values / vx_policy_values, assumed: exactly the stored values); String / str comparisons through references outlined (vx_string_eq, vx_string_eq_str, vx_str_eq: equality of the character sequences); Arc<str>::as_ref, Arc::clone = same value; add_defined_set and condition_kind_matches trusted with no contract; the tails of delete_statement / delete_policy (editing a statement / policy that is not in use) carry no functional contract, only panic-freedom and the in-use guard; delete_defined_set: rule R20 replaces everything behind the in-use guard of each of its six arms (`if all { .. }` and the member-removal code: IpLookupTable / Regex / retain, outside Verus's dialect) by an arbitrary outcome (vx_unverified_tail) — only the guard is verified, the removal code is NOT",
+    "NOT under contract: the regular-expression members of an as-path set (known finding F-C14-4), prefix / neighbour sets with the ALL option (rejected by add_statement), the byte layout of community attributes, and the in-use guards of add_defined_set (merge), add_statement / add_policy (existing object) and the daemon-side per-peer checks",
 ]
 
 UNIT_TRUSTED["table_rslocal"] = [
     "Table::rs_local_paths wrapped in place; RibEntry's Ord enters as an uninterpreted total comparison rib_cmp (its agreement with the property's decision order is what unit table_cmp proves); `iter().filter(p).max()` / `.min()` outlined as one helper whose last arguments say which method the code names and, as a ghost value, the predicate the closure computes (checked at the call site) — ASSUMED std contracts: max returns an element no other yielded element exceeds, min one that exceeds no other; `Option::into_iter().map(f).collect()` is a verified helper; Source::is_rs_client / remote_addr / RibEntry::is_filtered uninterpreted; Table, Source, RpkiValidation opaque",
+]
+
+UNIT_TRUSTED["daemon_peer_cfg"] = [
+    "PeerParams::apply_peer_group and Peer::peer_role wrapped in place; GrPeerConfig, LlgrPeerConfig, RouteReflectorConfig, PeerConfig, PeerParams, PeerGroup, ConfederationConfig wrapped as they stand (transparent); IpAddr, Ipv4Addr, fsm::State, BfdPeerConfig, Disposition, IpNet, Update opaque; table::PeerRole mirrored transparently",
+    "`x.clone()` of the copied group values outlined as vx_clone (ASSUMED: derived / std Clone of Option<String>, Option<GrPeerConfig>, Option<LlgrPeerConfig>, FnvHashMap<Family, _>, RouteReflectorConfig returns an equal value); the let-chains are desugared by rule R8; 'unset' markers (0, DEFAULT_HOLD_TIME 180, DEFAULT_CONNECT_RETRY_TIME 3, None, no family, false) are taken from the code — the property does not name them; rlimit(200), about 22 s",
+    "Peer and Global stay outside Verus (Arc<Mutex<..>>, sockets, tokio handles): `self.config` and `global.confederation.as_ref()` are read through two assumed accessors (vx_peer_config, vx_global_confed); FnvHashSet<u32>::contains through vstd's HashSet model (u32 key model, FNV hasher assumed valid); `is_some_and(|(_, members)| ..)` outlined as the match it is defined to be",
+    "NOT under contract: PeerParams::build (local AS defaulting to the global AS, default port, capability list), build_local_cap, the TryFrom conversions from the configuration file / API, Global::add_peer, accept_connection (async), negotiate_gr / negotiate_llgr",
 ]
 
 UNIT_TRUSTED["packet_negotiate"] = [
@@ -140,14 +147,14 @@ UNIT_TRUSTED["packet_nlri"] = [
 ]
 
 # minimum number of functions that must produce obligations / of must-fail twins that must run
-FLOORS = {"daemon_fsm": 30, "daemon_gr": 4, "daemon_peer_tx": 9, "table_cmp": 20, "packet_validate": 1, "packet_parse": 1, "table_rpki": 5, "table_policy": 12, "daemon_export": 11, "packet_bmp": 6, "packet_mrt": 8, "packet_aspath": 11, "packet_encode": 4, "packet_nlri": 22, "daemon_restart": 7, "packet_negotiate": 1, "table_rslocal": 1}
-TWIN_FLOORS = {"daemon_fsm": 8, "daemon_gr": 3, "daemon_peer_tx": 2, "table_cmp": 4, "packet_validate": 1, "packet_parse": 1, "table_rpki": 1, "table_policy": 1, "daemon_export": 1, "packet_bmp": 1, "packet_mrt": 1, "packet_aspath": 1, "packet_encode": 1, "packet_nlri": 1, "daemon_restart": 1, "packet_negotiate": 0, "table_rslocal": 0}
+FLOORS = {"daemon_fsm": 30, "daemon_gr": 4, "daemon_peer_tx": 9, "table_cmp": 20, "packet_validate": 1, "packet_parse": 1, "table_rpki": 5, "table_policy": 13, "daemon_export": 11, "packet_bmp": 6, "packet_mrt": 8, "packet_aspath": 11, "packet_encode": 4, "packet_nlri": 22, "daemon_restart": 7, "packet_negotiate": 1, "table_rslocal": 1, "daemon_peer_cfg": 2}
+TWIN_FLOORS = {"daemon_fsm": 8, "daemon_gr": 3, "daemon_peer_tx": 2, "table_cmp": 4, "packet_validate": 1, "packet_parse": 1, "table_rpki": 1, "table_policy": 1, "daemon_export": 1, "packet_bmp": 1, "packet_mrt": 1, "packet_aspath": 1, "packet_encode": 1, "packet_nlri": 1, "daemon_restart": 1, "packet_negotiate": 0, "table_rslocal": 0, "daemon_peer_cfg": 0}
 
 PLAN = {
     "C01": {"verus": ["daemon_peer_tx", "daemon_export"], "level": "proof",
             # of the export unit, C01 looks at the diff of the exportable window against what was sent
             "fn_filter": {"daemon_export": ["process_nlri_change"]}},
-    "C05": {"verus": ["packet_validate", "packet_parse"], "kani": ["c05_canonical_flags_table"] + ["c05_attr_decode_" + x for x in ("origin", "med", "local_pref", "atomic_aggregate", "aggregator", "community", "originator_id", "cluster_list", "ext_community", "as4_aggregator", "large_community")], "level": "proof"},
+    "C05": {"verus": ["packet_validate", "packet_parse"], "kani": ["c05_canonical_flags_table"] + ["c05_attr_decode_" + x for x in ("origin", "med", "local_pref", "atomic_aggregate", "aggregator", "community", "originator_id", "cluster_list", "ext_community", "as4_aggregator", "large_community")] + ["c05_attr_decode_as_path_len%d" % n for n in (0, 6, 7, 8, 12)] + ["c05_attr_decode_as4_path_len%d" % n for n in (6, 7, 12)], "level": "proof"},
     "C06": {"verus": [], "kani": ["c06_id_alloc_unique", "c06_id_dealloc_exact", "c06_id_alloc_mustfail"], "level": "other",
             "explanation": "BOUNDED stand-in, not a proof: Kani/CBMC harnesses on the real IdAllocator::{alloc,dealloc} with <= 4 bitmap words (256 live ids per shard), every word over its full 64-bit domain, under the representation invariant 'no trailing zero word': alloc returns the least free id, which no live prefix holds, marks exactly it live and keeps the shard index in bits 31..24; dealloc frees exactly its id and restores the invariant. Only the identifier-uniqueness clause of C06 is addressed; the change-stream fold and the end-of-deferral clause live in Table::{insert,remove,end_deferral,...} (note T) and are not covered."},
     "C07": {"verus": ["daemon_fsm", "packet_parse"], "level": "proof"},
@@ -159,7 +166,7 @@ PLAN = {
     "C11": {"verus": ["daemon_restart"], "level": "proof"},
     "C12": {"verus": ["table_rpki"], "kani": ["c12_covering_key_v4", "c12_covering_key_v6"], "level": "proof"},
     "C14": {"verus": ["table_policy"], "level": "proof"},
-    "C16": {"verus": ["daemon_fsm", "packet_negotiate"], "kani": ["c16_ipnet_contains_v4", "c16_ipnet_contains_v6"], "level": "proof"},
+    "C16": {"verus": ["daemon_fsm", "packet_negotiate", "daemon_peer_cfg"], "kani": ["c16_ipnet_contains_v4", "c16_ipnet_contains_v6"], "level": "proof"},
     "C04": {"verus": ["packet_encode", "packet_aspath"], "level": "proof",
             "fn_filter": {"packet_aspath": ["encode", "encode_wire", "value", "binary", "as_path_has_wide_as", "lemma_seg_any_wide_mono"]}},
     "C02": {"verus": ["table_cmp", "table_rslocal", "packet_aspath"], "level": "proof",
